@@ -647,7 +647,7 @@ def run(ctx, env):
     from . import consume as _cons
     _cons.partial_output_rule(ctx, prog, an, "R4.12", lambda b: b.path.startswith(("variable_versions::v9::", "variable_versions::data_number::")))
     ctx.rule("R4.13", "the records a decoder reports are made by that decode alone: every element added to the reported collection derives from the input slice, and the collection itself is created by the call - not the drained / taken content of storage kept in the parser object (a reusable buffer that a failed decode leaves half-filled would surface in a later packet) (shared with C02 R2.10)")
-    _cons.foreign_rule(ctx, prog, an, "R4.13", lambda b: b.path.startswith(("variable_versions::v9::", "variable_versions::data_number::")), floor=1)
+    _cons.foreign_rule(ctx, prog, an, "R4.13", lambda b: b.path.startswith(("variable_versions::v9::", "variable_versions::data_number::")), floor=0)
     # R4.11
     ctx.rule("R4.11", "a field value is reported as sent: in every arm of FieldValue::from_field_type (private helpers inlined) no arithmetic, clamping or narrowing cast is applied to a value read from the input bytes, and each time kind gets its unit from the Duration constructor of that unit")
     from . import valuepath
